@@ -40,14 +40,26 @@ fn heavy(kind: u64, rng: &mut Rng) -> (Comp, Vec<ContentSpec>, bool, &'static st
         2 => {
             let big = gen::gen_bytes(rng, 0, 4 * 1024 * 1024 + 323, Flavor::Text);
             let small = gen::gen_bytes(rng, 1, 4 * 1024 * 1024 - 1, Flavor::Text);
+            // near-duplicates: the same length and the same bytes but for the last one, the
+            // first one, and one in the middle (whatever part of a big content the adder looks
+            // at to recognise a duplicate, these are three more contents, not copies)
+            let mut last_differs = big.clone();
+            *last_differs.last_mut().unwrap() ^= 0x20;
+            let mut first_differs = big.clone();
+            first_differs[0] ^= 0x20;
+            let mut middle_differs = big.clone();
+            middle_differs[2 * 1024 * 1024 + 17] ^= 0x20;
             (
                 Comp::Zstd(1),
                 vec![
                     mk(big.clone(), Hint::Yes, SrcKind::File),
                     mk(small.clone(), Hint::No, SrcKind::Cursor),
                     mk(big.clone(), Hint::No, SrcKind::Cursor),
+                    mk(last_differs, Hint::Yes, SrcKind::Cursor),
                     mk(small, Hint::Yes, SrcKind::Sim),
+                    mk(first_differs, Hint::Yes, SrcKind::File),
                     mk(big, Hint::Detect, SrcKind::FileRange),
+                    mk(middle_differs, Hint::No, SrcKind::Cursor),
                 ],
                 true,
                 "dedup adder around the 4 MiB hashing switch",
